@@ -164,7 +164,11 @@ func runCase(p h.Property, c h.Case, shrink, sample bool) {
 		emit(e)
 		break // one violation event per case; further rules are listed in detail of the replay
 	}
-	e := event{Ev: "end", I: c.Index, Hash: c.Hash(), NonTrivial: o.NonTrivial, Skipped: o.Skipped, Inconcl: o.Inconclusive, Counters: o.Counters, Tags: o.Tags, Ms: el}
+	hash := c.Hash()
+	if o.Identity != "" {
+		hash = o.Identity
+	}
+	e := event{Ev: "end", I: c.Index, Hash: hash, NonTrivial: o.NonTrivial, Skipped: o.Skipped, Inconcl: o.Inconclusive, Counters: o.Counters, Tags: o.Tags, Ms: el}
 	if sample {
 		cc := c
 		e.Case = &cc
